@@ -30,7 +30,7 @@ func init() {
 func (c15) Meta() core.Meta {
 	return core.Meta{
 		ID: "C15", Level: "fault_enumeration",
-		Rule:        "case i = f(seed,i), five kinds. (xml) a small generated document (<=70 bytes; attributes, text, comments, CDATA, PIs, namespaces) is offered intact, at EVERY truncation point and with EVERY single-byte substitution from the hostile set {< > / & \" ' [ ] { } \\ : ! ? - = space NUL 0xFF} to NewMapXml, NewMapXmlReader, NewMapXmlReaderRaw, HandleXmlReader[Raw], NewMapXmlSeq, NewMapXmlSeqReader[Raw], NewMapFormattedXmlSeq and BeautifyXml; an independent pass of the strict std tokenizer over the same bytes (up to the end tag that closes the first start element) decides acceptance: reject <=> error and empty Map (sequence decoder: documented NoRoot one-entry result for a leading comment/directive/PI). (json) the same enumeration over JSON documents for NewMapJson (oracle: encoding/json, as C06) and the JSON reader / bulk forms (termination, no panic). (gob) every truncation and substitution of a gob stream: NewMapGob errs <=> encoding/gob rejects. (special) stray end tags, mixed content, invalid UTF-8, nesting depth up to 20000, wide documents. (args) junk path / key / sub-key / key-pair / new-value strings (empty segments, negative and huge indexes, unmatched brackets, empty sub-key names, extra separators) on arbitrary Maps incl. empty keys, through every query and update method. Every Map a decoder returns is passed to all its encoders (Xml, XmlIndent, Json, Gob, LeafNodes, StringIndent; MapSeq.Xml/XmlIndent). Reader forms run on a Read-count budget (termination on logical steps). The hostile batches are repeated under the -race build (checkptr armed). Non-trivial: a mutated input or a junk argument; distinct by hash(input bytes / arguments).",
+		Rule:        "case i = f(seed,i), five kinds. (xml) a small generated document (<=70 bytes; attributes, text, comments, CDATA, PIs, namespaces) is offered intact, at EVERY truncation point and with EVERY single-byte substitution from the hostile set {< > / & \" ' [ ] { } \\ : ! ? - = space NUL 0xFF FF(0x0C)} to NewMapXml, NewMapXmlReader, NewMapXmlReaderRaw, HandleXmlReader[Raw], NewMapXmlSeq, NewMapXmlSeqReader[Raw], NewMapFormattedXmlSeq and BeautifyXml; an independent pass of the strict std tokenizer over the same bytes (up to the end tag that closes the first start element) decides acceptance (configured like mxj.CustomDecoder - strict/non-strict, extra entities, HTML auto-close - in the cases that set one; NewMapFormattedXmlSeq judged on the input with blank/tab/CR/LF runs between '>' and '<' removed): reject <=> error and empty Map (sequence decoder: documented NoRoot one-entry result for a leading comment/directive/PI). (json) the same enumeration over JSON documents for NewMapJson (oracle: encoding/json, as C06) and the JSON reader / bulk forms (termination, no panic). (gob) every truncation and substitution of a gob stream: NewMapGob errs <=> encoding/gob rejects. (special) stray end tags, mixed content, invalid UTF-8, nesting depth up to 20000, wide documents. (args) junk path / key / sub-key / key-pair / new-value strings (empty segments, negative and huge indexes, unmatched brackets, empty sub-key names, extra separators) on arbitrary Maps incl. empty keys, through every query and update method. Every Map a decoder returns is passed to all its encoders (Xml, XmlIndent, Json, Gob, LeafNodes, StringIndent; MapSeq.Xml/XmlIndent). Reader forms run on a Read-count budget (termination on logical steps). The hostile batches are repeated under the -race build (checkptr armed). Non-trivial: a mutated input or a junk argument; distinct by hash(input bytes / arguments).",
 		Assumptions: []string{"encoding/xml strict tokenizer, encoding/json and encoding/gob define acceptance", "nesting depth bound 20000 (a 10^6-deep document overflows the goroutine stack in the recursive encoder: outside the explored bound, DESIGN section 6 F25)", "gob mutants keep every substituted byte below 0x80: encoding/gob allocates by untrusted length prefixes, so larger counts can exhaust memory inside the standard library (reference and NewMapGob alike)"},
 		Anchors:     []string{"NewMapXml", "NewMapXmlSeq", "xmlSeqToMapParser", "NewMapJson", "NewMapJsonReaderRaw", "getJson", "NewMapGob", "BeautifyXml", "parsePath", "getSubKeyMap", "hasSubKeys", "getLeafNodes", "Map.SetValueForPath", "Map.UpdateValuesForPath", "Map.NewMap", "valuesForArray", "elemListSeq.Less", "MapSeq.Xml"},
 		Floors:      map[string]int64{"xml:std-rejects": 20000, "xml:std-accepts": 5000, "xml:seq-noroot": 200, "json:inputs": 20000, "gob:inputs": 3000, "gob:std-rejects": 1000, "args:calls": 30000, "args:error-returned": 5000, "decoded-maps-reencoded": 5000, "special:deep": 2},
@@ -49,7 +49,7 @@ func (c15) Cases(tier string, race bool) int {
 	return n
 }
 
-var c15hostile = []byte("<>/&\"'[]{}\\:!?-= \x00\xff")
+var c15hostile = []byte("<>/&\"'[]{}\\:!?-= \x00\xff\x0c")
 
 var c15xmlgen = xt.GenCfg{Names: []string{"a", "b", "x-y"}, Prefixes: []string{"", "", "n"}, Texts: []string{"", "t", "&amp;", "<", "1", "a]]>b", "é"}, MaxKids: 2, MaxAttrs: 2, SeqMode: false}
 var c15seqgen = xt.GenCfg{Names: []string{"a", "b", "x-y"}, Prefixes: []string{"", "", "n"}, Texts: []string{"", "t", "&amp;", "1"}, MaxKids: 2, MaxAttrs: 2, SeqMode: true}
@@ -58,6 +58,10 @@ var c15seqgen = xt.GenCfg{Names: []string{"a", "b", "x-y"}, Prefixes: []string{"
 // leading = kind of the first comment/directive/PI seen before the first start element ("" if none).
 func stdFirstDoc(b []byte) (accept bool, leading string, why string) {
 	d := xml.NewDecoder(bytes.NewReader(b))
+	if c15custom != nil {
+		// "the underlying tokenizer" is the one the caller configured through CustomDecoder
+		d.Strict, d.AutoClose, d.Entity = c15custom.Strict, c15custom.AutoClose, c15custom.Entity
+	}
 	depth := 0
 	started := false
 	for {
@@ -92,6 +96,9 @@ func stdFirstDoc(b []byte) (accept bool, leading string, why string) {
 		}
 	}
 }
+
+// c15custom mirrors mxj.CustomDecoder for the reference tokenizer (nil: strict defaults).
+var c15custom *xml.Decoder
 
 type budgetReader struct {
 	r      io.Reader
@@ -209,7 +216,8 @@ func c15xmlInput(c *core.Ctx, b []byte, mutated bool) {
 	}
 
 	// ---- sequence decoder ----
-	checkSeq := func(api string, ms mxj.MapSeq, err error) {
+	var checkSeq func(api string, ms mxj.MapSeq, err error)
+	checkSeqWith := func(api string, ms mxj.MapSeq, err error, accept bool, leading string) {
 		switch {
 		case leading != "" && (accept || true) && err == mxj.NoRoot:
 			// documented no-root result: exactly one entry under the matching reserved key
@@ -226,6 +234,10 @@ func c15xmlInput(c *core.Ctx, b []byte, mutated bool) {
 			} else if len(ms) != 0 {
 				c.Violate("c15-xml-partial-map:"+api, api+" returned a partial Map together with an error", det(api, ms, err))
 			}
+		case accept && err != nil && c15custom != nil && (!c15custom.Strict || c15custom.AutoClose != nil):
+			// the sequence decoder reads raw tokens (to keep prefixes) and checks nesting itself: the repairs a non-strict or
+			// auto-closing tokenizer makes to the token stream (mismatched / missing end tags) do not exist at that level
+			c.Count("xml:seq-strict-nesting-under-lenient-tokenizer")
 		case accept && err != nil:
 			c.Violate("c15-xml-rejects-valid:"+api, api+" failed although the std tokenizer accepts the first document", det(api, ms, err))
 		case !accept && err == nil:
@@ -237,14 +249,19 @@ func c15xmlInput(c *core.Ctx, b []byte, mutated bool) {
 			c15reencodeSeq(c, ms)
 		}
 	}
+	checkSeq = func(api string, ms mxj.MapSeq, err error) { checkSeqWith(api, ms, err, accept, leading) }
 	ms, err := mxj.NewMapXmlSeq(b)
 	checkSeq("NewMapXmlSeq", ms, err)
 	ms, err = mxj.NewMapXmlSeqReader(newBudget(b))
 	checkSeq("NewMapXmlSeqReader", ms, err)
 	ms, _, err = mxj.NewMapXmlSeqReaderRaw(newBudget(b))
 	checkSeq("NewMapXmlSeqReaderRaw", ms, err)
-	if ms2, e := mxj.NewMapFormattedXmlSeq(b); e == nil {
-		c15reencodeSeq(c, ms2)
+	// NewMapFormattedXmlSeq documents one difference: runs of blank, tab, CR, LF between '>' and '<' are deleted first
+	{
+		fb := formattedRe.ReplaceAll(b, []byte("><"))
+		fa, fl, _ := stdFirstDoc(fb)
+		ms2, e := mxj.NewMapFormattedXmlSeq(b)
+		checkSeqWith("NewMapFormattedXmlSeq", ms2, e, fa, fl)
 	}
 	var out []byte
 	var berr error = io.EOF
@@ -489,7 +506,11 @@ func c15special(c *core.Ctx) {
 		b.WriteString("</r>")
 		docs = append(docs, b.Bytes())
 	default: // prolog / doctype / xmlns oddities
-		docs = append(docs, []byte(`<?xml version="2.0"?><a/>`), []byte(`<?xml version="1.0" encoding="latin1"?><a/>`), []byte(`<!DOCTYPE a [<!ENTITY e "v">]><a>&e;</a>`), []byte(`<a xmlns:x="u" x:b="1" b="2"/>`), []byte(`<x:a/>`), []byte(`<a xmlns=""/>`), []byte(`<a:b:c/>`), []byte(`<a b="1" b="2"/>`), []byte(`<?xml?><a/>`), []byte(`<a/><b/>`), []byte("<a/>junk"))
+		docs = append(docs, []byte(`<?xml version="2.0"?><a/>`), []byte(`<?xml version="1.0" encoding="latin1"?><a/>`), []byte(`<!DOCTYPE a [<!ENTITY e "v">]><a>&e;</a>`), []byte(`<a xmlns:x="u" x:b="1" b="2"/>`), []byte(`<x:a/>`), []byte(`<a xmlns=""/>`), []byte(`<a:b:c/>`), []byte(`<a b="1" b="2"/>`), []byte(`<?xml?><a/>`), []byte(`<a/><b/>`), []byte("<a/>junk"),
+			[]byte(`<a>&foo;</a>`), []byte(`<a b="&nbsp;"/>`), []byte(`<a>x<br>y</a>`), []byte(`<a><link>t</a>`), []byte(`<a b=c/>`), []byte("<a>\f<b>x</b></a>"), []byte("<a>\v<b/>\f</a>"), []byte("<a> \f <b/></a>"))
+	}
+	if c15custom != nil && !c15deep {
+		docs = append(docs, []byte(`<a>&foo;</a>`), []byte(`<a b="&nbsp;"/>`), []byte(`<a>x<br>y</a>`), []byte(`<a b=c/>`))
 	}
 	for _, d := range docs {
 		c15xmlInput(c, d, true)
@@ -499,6 +520,21 @@ func c15special(c *core.Ctx) {
 func (c15) Case(c *core.Ctx) {
 	r := c.R
 	defer ResetDefaults()
+	c15custom = nil
+	if k := c.Index % 8; (k == 0 || k == 1 || k == 4) && r.Intn(3) == 0 {
+		// CustomDecoder: the decoders fail exactly when the tokenizer configured the same way rejects
+		cd := &xml.Decoder{Strict: r.Intn(3) != 0}
+		if r.Intn(3) != 0 {
+			cd.Entity = map[string]string{"foo": "bar", "nbsp": "\u00a0"}
+		}
+		if r.Intn(3) == 0 {
+			cd.AutoClose = xml.HTMLAutoClose
+		}
+		mxj.CustomDecoder = cd
+		c15custom = &xml.Decoder{Strict: cd.Strict, Entity: cd.Entity, AutoClose: cd.AutoClose}
+		defer func() { c15custom = nil }()
+		c.Count("custom-decoder")
+	}
 	if k := c.Index % 8; (k == 0 || k == 1 || k == 4) && r.Intn(2) == 0 {
 		// decoders and encoders are total under every option combination, not only the defaults
 		cfg := GenCfg(r, true, true)
@@ -530,6 +566,10 @@ func (c15) Case(c *core.Ctx) {
 			c.Sample(core.D{"kind": "xml", "base_document": string(doc), "mutants": fmt.Sprintf("%d truncations + %d substitutions", len(doc)+1, len(doc)*len(c15hostile))})
 		}
 		mutateAll(c, doc, c15xmlInput)
+		if c15custom != nil {
+			// what the configured tokenizer treats differently: extra entities, void elements, unquoted attribute values
+			mutateAll(c, []byte([]string{`<a b="&nbsp;">&foo;<c/></a>`, `<a>x<br>&foo;<link>y</a>`, `<a b=c>&bar;</a>`}[r.Intn(3)]), c15xmlInput)
+		}
 	case 2:
 		var doc []byte
 		for {
